@@ -403,8 +403,16 @@ pub fn cmd_c05(tier: &str, out: &str) {
     let mut streams = 0u64;
     let caps: Vec<i64> = vec![-1, 0, 1, 2, 3, 8];
     let tail: Vec<u32> = std::iter::once(OP_FIN).chain(frame(&[]).iter().map(|b| *b as u32)).chain(std::iter::once(OP_FIN)).collect();
+    // heartbeat for the driver's watchdog: the stimulus in flight is written to <out>.current before it is run, so that a
+    // call that never returns (C05: "never loops") can be attributed to its stimulus when the driver kills the harness
+    let hb_path = format!("{}.current", out);
+    let mut hb_n = 0u64;
     stream_families(tier, &fams_for(tier, "c05"), &mut rng, &mut |ops, _| {
         streams += 1;
+        hb_n += 1;
+        if ops.len() > 2000 || hb_n % 8 == 0 {
+            let _ = std::fs::write(&hb_path, format!("{{\"cap\":-5,\"ops\":{},\"n0\":{},\"e\":[[-1,15]],\"note\":\"harness killed by the watchdog; one of the last 8 stimuli (this is the most recent one written) did not return\"}}", jarr(ops), ops.len()));
+        }
         let mut o2 = ops.to_vec();
         o2.extend(&tail);
         for cap in &caps {
@@ -455,5 +463,6 @@ pub fn cmd_c05(tier: &str, out: &str) {
         let kinds = crate::tr::encoder_outcomes(p);
         ks.put(&format!("enc|{:?}", kinds), || format!("{{\"cap\":-4,\"p\":{},\"e\":{}}}", jarr(p), jarr2(&kinds)));
     }
+    let _ = std::fs::remove_file(&hb_path);
     ks.finish("c05", &format!(",\"streams\":{},\"encoder_payloads\":{}", streams, nenc));
 }
